@@ -10,3 +10,25 @@ package enum
 //@   requires s != nil && s.dataSize == len(s.data) && 1 <= s.index && s.index <= s.dataSize
 //@   nopanic
 //@   modifies s.finds, s.finds[*], s.step
+
+// C18: "duplicates are detected on (decoded text, kind)": the key of a value is
+// its text (decoded when it is a string) together with the JSON kind of the
+// trimmed literal, so "1" and 1 are different values
+//@ func newEnumItem(b)
+//@   props C18
+//@   requires len(b) <= 1000000000000
+//@   maypanic
+//@   ensures normal ==> result.jsonType != 0
+//@   defines normal ==> result.value == enumKeyText(b)
+
+// C18: a value is rejected exactly when a value with the same key was seen
+// before; otherwise its key is recorded
+//@ func (*scanner).validateValue()
+//@   props C18
+//@   requires s != nil && s.uniqueValues != nil && s.stack != nil && s.file != nil
+//@   assumes len(s.stack.vals) >= 1 && s.index >= 2 && s.stack.vals[len(s.stack.vals) - 1].begin <= s.index - 1 && s.index - 1 <= cap(s.file.content) && s.index <= 1000000000000
+//@   maypanic
+//@   modifies s.uniqueValues[*]
+//@   ensures normal && result != nil ==> (forall k enumItemValue :: dom(s.uniqueValues, k) <==> old(dom(s.uniqueValues, k)))
+//@   ensures normal && result == nil ==> len(s.uniqueValues) == old(len(s.uniqueValues)) + 1
+//@   ensures normal && result == nil ==> (forall k enumItemValue :: old(dom(s.uniqueValues, k)) ==> dom(s.uniqueValues, k))
